@@ -98,8 +98,11 @@ def gen_case(rng, kind=None, backend=None):
     for _ in range(rng.choice([0, 1, 2, 3])):
         r = rng.random()
         m = rng.randrange(E)
-        if r < 0.35:
+        if r < 0.2:
             ops.append({"op": "plain", "member": m, "values": [str(Fraction(rng.randint(-20, 20), 2)) for _ in range(h)]})
+        elif r < 0.35:
+            # fewer values than the horizon, consistency check off: they still start at t0
+            ops.append({"op": "plain_partial", "member": m, "values": [str(Fraction(rng.randint(-20, 20), 2)) for _ in range(rng.randint(1, max(1, h - 1)))]})
         elif r < 0.55:
             ops.append({"op": "full", "member": m, "values": [str(Fraction(rng.randint(-20, 20), 2)) for _ in range(n)]})
         elif r < 0.85:
@@ -319,6 +322,8 @@ def run_opt(spec):
             try:
                 if op["op"] == "plain":
                     p.set_timeseries("added", vals, ensemble_member=op["member"])
+                elif op["op"] == "plain_partial":
+                    p.set_timeseries("added", vals, ensemble_member=op["member"], check_consistency=False)
                 elif op["op"] == "full":
                     p.set_timeseries("added", Timeseries(tsec, vals), ensemble_member=op["member"])
                 elif op["op"] == "part":
@@ -425,7 +430,7 @@ def case_terms(spec):
     tsec = [t - spec["axis"][spec["k"]] for t in spec["axis"]]
     for i, op in enumerate(spec["ops"]):
         vals = glist(op["values"], gval)
-        if op["op"] == "plain":
+        if op["op"] in ("plain", "plain_partial"):
             terms.append("ser_vals (set_plain %s %s %s)" % (axis, ref, vals))
         elif op["op"] == "full":
             terms.append("ser_vals (set_with_times %s %s %s %s)" % (axis, ref, gzl(tsec), vals))
@@ -522,7 +527,7 @@ def compare(ctx, spec, obs, vals, keys):
                     bad.append(("set/subset-misaligned", [op, got[1]], want))
                 continue
             if isinstance(got, dict):
-                if op["op"] == "plain" and len(op["values"]) == len(obs["times"]) or op["op"] in ("full", "part"):
+                if op["op"] == "plain" and len(op["values"]) == len(obs["times"]) or op["op"] in ("full", "part", "plain_partial"):
                     bad.append(("set/raised", [op, got], None))
                 continue
             if got[0] != obs["times_sec"] or not same_vals(got[1], exp):
@@ -570,6 +575,74 @@ def check_sim(spec, obs):
             bad.append(("sim/step-input", [i, w[i]], w[i - 1] + q[i]))
             break
     return bad
+
+
+def store_sequences(ctx):
+    """the data store as a map (member, name) -> value: any order of set_timeseries / set_parameter calls,
+    members appearing in any order, then every get returns what was last set for exactly that key"""
+    from rtctools.data.storage import DataStoreAccessor
+    from pymoca.backends.casadi.alias_relation import AliasRelation
+    rng = ctx.rng
+
+    class Acc(DataStoreAccessor):
+        @property
+        def alias_relation(self):
+            return AliasRelation()
+
+    for _ in range(ctx.n(40, 1500)):
+        acc = Acc()
+        n = rng.randint(2, 5)
+        dt = rng.choice([900, 3600, 86400])
+        k = rng.randrange(n)
+        stamps = [dts(i * dt) for i in range(n)]
+        acc.io.reference_datetime = stamps[k]
+        E = rng.randint(1, 4)
+        order = [rng.randrange(E) for _ in range(rng.randint(1, 8))]
+        expect_ts, expect_par, ops = {}, {}, []
+        for m in order:
+            if rng.random() < 0.6:
+                name = rng.choice(["a", "b"])
+                vals = np.array([float(rng.randint(-9, 9)) for _ in range(n)])
+                if rng.random() < 0.5 or not expect_ts:      # times in seconds need the datetimes first
+                    acc.io.set_timeseries(name, stamps, vals, m)
+                else:
+                    acc.io.set_timeseries_sec(name, np.array([(i - k) * float(dt) for i in range(n)]), vals, m)
+                expect_ts[(m, name)] = vals.tolist()
+                ops.append(["ts", m, name, vals.tolist()])
+            else:
+                name = rng.choice(["p", "q"])
+                v = float(rng.randint(-9, 9))
+                acc.io.set_parameter(name, v, m)
+                expect_par[(m, name)] = v
+                ops.append(["par", m, name, v])
+        size = max(order) + 1
+        ctx.count("store_sequences")
+        ctx.case_done(core.fingerprint(["store", n, k, E, order]), len(set(order)) > 1)
+        bad = None
+        if acc.io.ensemble_size != size:
+            bad = ("ensemble_size", acc.io.ensemble_size, size)
+        for m in range(size):
+            for name in (("a", "b") if expect_ts else ()):      # without any series the store has no axis to convert
+                try:
+                    t, got = acc.io.get_timeseries_sec(name, m)
+                    got = [float(x) for x in got]
+                    tt = [float(x) for x in t]
+                except KeyError:
+                    got, tt = None, None
+                if got != expect_ts.get((m, name)):
+                    bad = ("timeseries", [m, name, got], expect_ts.get((m, name)))
+                elif got is not None and tt != [(i - k) * float(dt) for i in range(n)]:
+                    bad = ("times_sec", tt, [(i - k) * float(dt) for i in range(n)])
+            for name in ("p", "q"):
+                try:
+                    got = float(acc.io.get_parameter(name, m))
+                except KeyError:
+                    got = None
+                if got != expect_par.get((m, name)):
+                    bad = ("parameter", [m, name, got], expect_par.get((m, name)))
+        if bad:
+            ctx.violation("io/store-sequence", {"operations": ops, "reference_index": k, "impl": bad[1], "expected": bad[2]},
+                          what="data store after %d set calls: %s is %s, expected %s" % (len(ops), bad[0], bad[1], bad[2]))
 
 
 def shape(spec):
@@ -630,6 +703,8 @@ def run(ctx):
         if not bad and len(ctx.samples) < 3 and spec["k"] > 0:
             ctx.sample({"backend": spec["backend"], "axis": spec["axis"], "t0": spec["axis"][spec["k"]], "times": obs["times"],
                         "export_stamps": obs["export"]["0"]["stamps"]})
+    if not replay:
+        store_sequences(ctx)
     # agreement between back-ends
     for tri in triples:
         obs3 = [results[i] for i in tri]
